@@ -103,6 +103,9 @@ func vh_c27_call_q()   { vc27("f(a", ")", 3) }
 func vh_c27_index_q()  { vc27("a[1", "]", 3) }
 func vh_c27_prec_q()   { vc27("a+b", "c", 2) }
 func vh_c27_sel_q()    { vc27("a.b", "", 3) }
+func vh_c27_postbin_q() { vc27("(a+b)", "", 3) }
+func vh_c27_postun_q()  { vc27("(-a)", "", 3) }
+func vh_c27_postlit_q() { vc27("(1)", "", 3) }
 func vh_c27_free_t()   { vc27("", "", 4) }
 func vh_c27_binary_t() { vc27("a ", " b", 3) }
 func vh_c27_prec_t()   { vc27("a+b", "c*d", 3) }
